@@ -57,6 +57,7 @@ Init ==
 
 Log(op, out) == hist' = Append(hist, op) /\ outs' = Append(outs, out)
 
+ArgOk(a, n) == n = -1 \/ RfcLenOk(a, n)
 \* Key::new(algorithm, secret, name, min_mac_len, signing_len) / Key::generate
 KeyNew ==
   /\ pc = "start"
@@ -65,8 +66,10 @@ KeyNew ==
        IN /\ key' = [NoKey EXCEPT !.alg = a, !.slen = r.slen, !.minlen = r.minlen]
           /\ g' = [g EXCEPT !.admitted = r.res = "Ok", !.args = <<a, mm, sl>>, !.got = r.res]
           /\ pc' = IF r.res = "Ok" /\ ~gen THEN "have" ELSE "done"
+          \* which of the two errors is reported when both lengths are out of range is not specified
           /\ Log([op |-> "key_new", alg |-> a, min |-> mm, sign |-> sl, gen |-> gen],
-                 [res |-> r.res, minlen |-> r.minlen, slen |-> r.slen, native |-> Native(a)])
+                 [res |-> r.res, minlen |-> r.minlen, slen |-> r.slen, native |-> Native(a),
+                  allow |-> IF ~ArgOk(a, mm) /\ ~ArgOk(a, sl) THEN {"BadMinMacLen", "BadSigningLen"} ELSE {r.res}])
   /\ UNCHANGED <<macs, cli>>
 
 NewFull == PseudoFull(Len(macs) + 1, key.alg)
@@ -138,7 +141,10 @@ Labels == {AlgLabel(a) : a \in Algs} \cup
             Front256, AlgLabel("sha256") \o <<55>>, HmacDash,
             <<115, 105, 103, 45, 97, 108, 103>>, <<114, 101, 103>>, <<105, 110, 116>>,
             <<101, 120, 97, 109, 112, 108, 101>> }
+LblSigAlg == <<115, 105, 103, 45, 97, 108, 103>>
 LabelSeqs == UNION {[1..k -> Labels] : k \in 0..MaxLabels}
+             \* HMAC-MD5.SIG-ALG.REG.INT (RFC 2845) and its look-alikes
+             \cup {<<l, LblSigAlg, <<114, 101, 103>>, <<105, 110, 116>> >> : l \in Labels}
 RECURSIVE Dotted(_)
 Dotted(ls) == IF ls = <<>> THEN <<>> ELSE IF Len(ls) = 1 THEN Head(ls) ELSE Head(ls) \o <<Dot>> \o Dotted(Tail(ls))
 
@@ -174,7 +180,6 @@ Spec == Init /\ [][Next]_vars
 
 --------------------------------------------------------------------------
 (* Properties *)
-ArgOk(a, n) == n = -1 \/ RfcLenOk(a, n)
 AdmittedPerRfc ==
   pc # "start" /\ hist[1].op = "key_new" =>
     /\ g.admitted = (ArgOk(g.args[1], g.args[2]) /\ ArgOk(g.args[1], g.args[3]))
